@@ -229,6 +229,8 @@ def eval_case(desc, ctx):
         return {"ints": None, "oracle": ("output records: " + r["oracle"]) if r["oracle"] else None,
                 "nontrivial": ("records",) + tuple(r["nontrivial"]) if r.get("nontrivial") else None, "kind": "records-" + r["kind"],
                 "observed": r.get("observed")}
+    if desc["k"] == "bulk":
+        return eval_bulk(desc)
     st = make_state()
     ref = Ref()
     ints = [len(ICOLS), len(PCOLS)] + [IDEF.get(c, NAN) for c in ICOLS] + [PDEF.get(c, NAN) for c in PCOLS] + [len(desc["ops"])]
@@ -264,6 +266,38 @@ def eval_case(desc, ctx):
             oracle = f"a second State in the same process: pids {[int(q) for q in other.variables['pid']]}, npid {int(other.npid)} after releasing 2 + 1 particles"
     return {"ints": ints, "oracle": oracle, "nontrivial": (str(desc["ops"]) if nontriv else None),
             "kind": "ops-len-%d" % min(len(desc["ops"]) // 5 * 5, 50), "observed": cur}
+
+
+def eval_bulk(desc):
+    """oracle only (too large for a Coq literal): a state of realistic size — hundreds of thousands of particles, of
+    which a handful die between two removals; releases in between; the invariants and the exact-removal clause on the
+    whole arrays"""
+    n, dead, more = desc["n"], desc["dead"], desc["more"]
+    st = make_state()
+    st.append(X=np.arange(n, dtype=float), Y=1.0, Z=1.0, weight=np.arange(n, dtype=float) + 0.5)
+    alive = np.ones(n, dtype=bool)
+    alive[np.array(dead, dtype=int)] = False
+    st["alive"] = alive
+    st.compactify()
+    problems = []
+    want = np.flatnonzero(alive)
+    pid = np.asarray(st.pid)
+    if len(st) != len(want) or not np.array_equal(pid, want):
+        extra = sorted(set(pid.tolist()) - set(want.tolist()))[:5]
+        problems.append(f"after removal of {len(dead)} dead among {n}: {len(st)} particles instead of {len(want)}; dead pids still present: {extra}")
+    elif not np.array_equal(np.asarray(st.X), want.astype(float)):
+        problems.append("after removal the X values are not those of the survivors")
+    if more:
+        st.append(X=np.full(more, -1.0), Y=1.0, Z=1.0, weight=7.0)
+        pid = np.asarray(st.pid)
+        if int(st.npid) != n + more or not np.array_equal(pid[-more:], np.arange(n, n + more)):
+            problems.append(f"release of {more} after the removal: pids {pid[-more:].tolist()[:5]}..., npid {int(st.npid)} (expected {n}.., {n + more})")
+        if len(np.asarray(st["weight"])) != n + more:
+            problems.append(f"particle variable has {len(np.asarray(st['weight']))} entries for {n + more} particles released")
+    if pid.size > 1 and not (np.diff(pid) > 0).all():
+        problems.append("pids not strictly increasing")
+    return {"ints": None, "oracle": "; ".join(problems[:2]) or None, "nontrivial": ("bulk", n, len(dead)), "kind": "bulk",
+            "observed": {"n": n, "dead": len(dead), "left": int(len(st))}}
 
 
 # ---- generators ----------------------------------------------------------------------------------
@@ -382,6 +416,9 @@ def gen_cases(ctx):
          ["compactify"], ["setp", "origin", [8]], ["append", {"X": 1, "Y": 2, "Z": 3, "origin": 4}]],
     ]):
         out.append({"k": "ops", "gen": "fixed-setp", "ops": ops, "obs": ["dict", "attr", "item"][i % 3]})
+    # states of realistic size (oracle only)
+    for n, dead, more in [(150000, [17], 3), (300000, [17, 123456], 0), (120000, [0, 119999], 2), (100001, [50000], 1)]:
+        out.append({"k": "bulk", "n": n, "dead": dead, "more": more})
     import c06
 
     for d in c06.gen_cases(ctx)[: (25 if ctx.quick else 200)]:
